@@ -290,35 +290,53 @@ Fixpoint lookup {K} (k : nat * nat) (l : entries K) : option (expr K) :=
                      end
   end.
 (* zeros((n, n)) then one assignment per entry *)
-Definition mat {K} (O : ops K) (size : nat) (es : entries K) : list (list (expr K)) :=
-  map (fun r => map (fun c => match lookup (r, c) es with Some e => e | None => Cst (o0 O) end) (seq 0 size)) (seq 0 size).
+Definition matr {K} (O : ops K) (nrows ncols : nat) (es : entries K) : list (list (expr K)) :=
+  map (fun r => map (fun c => match lookup (r, c) es with Some e => e | None => Cst (o0 O) end) (seq 0 ncols)) (seq 0 nrows).
+Definition mat {K} (O : ops K) (size : nat) (es : entries K) : list (list (expr K)) := matr O size size es.
 
 Inductive result (M : Type) := NameErr | Ok (J0 : M) (hs : list (nat * M)).
 Arguments NameErr {M}. Arguments Ok {M}.
 
-(* an instantaneous entry is printed without the table of past symbols: any past symbol left in it is an undefined name *)
+(* MODEL SWITCH (read by harness/c12.py as well): false = the code as it is now (an instantaneous entry is printed without the
+   table of past symbols: any past symbol left in it is an undefined name, defect D08b); true = the code with the repair
+   /verif/fixes/proposed_fix_C12_D08b.diff (J0 entries are printed with the table of past symbols, like the history entries). *)
+Definition fixed_D08b : bool := false.
+
 Definition name_error {K} (O : ops K) (skip : atom -> expr K -> bool) (s : sys K) : bool :=
   existsb (fun ke => has_past (snd ke)) (j0_entries O skip (states s) (fexprs s)).
 Definition no_delayed_factor_in_j0 {K} (O : ops K) (s : sys K) : bool := negb (name_error O noskip s).
 
-Definition jac_sym {K} (O : ops K) (fixed : bool) (skip : atom -> expr K -> bool) (s : sys K) : result (list (list (expr K))) :=
+Definition jac_sym {K} (O : ops K) (fixed : bool) (skip : atom -> expr K -> bool) (pastJ0 : bool) (s : sys K)
+  : result (list (list (expr K))) :=
   let fs := fexprs s in
   let size := length (states s) in
-  if name_error O skip s then NameErr
+  if negb pastJ0 && name_error O skip s then NameErr
   else Ok (mat O size (j0_entries O skip (states s) fs))
           (map (fun d => (d, mat O size (hist_entries O fixed skip (states s) fs d))) (delays fs)).
 
 Definition eval_mat {K} (O : ops K) (r : atom -> K) (m : list (list (expr K))) : list (list K) :=
   map (map (eval O (fun c => c) r)) m.
-Definition jac_impl_gen {K} (O : ops K) (fixed : bool) (skip : atom -> expr K -> bool) (s : sys K) (r : atom -> K)
+Definition jac_impl_gen {K} (O : ops K) (fixed : bool) (skip : atom -> expr K -> bool) (pastJ0 : bool) (s : sys K) (r : atom -> K)
   : result (list (list K)) :=
-  match jac_sym O fixed skip s with
+  match jac_sym O fixed skip pastJ0 s with
   | NameErr => NameErr
   | Ok j0 hs => Ok (eval_mat O r j0) (map (fun dm => (fst dm, eval_mat O r (snd dm))) hs)
   end.
-Definition jac_impl {K} (O : ops K) := @jac_impl_gen K O true noskip.            (* the code as it is now *)
-Definition jac_impl_preD08 {K} (O : ops K) := @jac_impl_gen K O false noskip.    (* the code before fix D08 *)
-Definition jac_impl_preD51 {K} (O : ops K) := @jac_impl_gen K O true unresolved. (* the code before fix D51 (absv) *)
+Definition jac_impl {K} (O : ops K) := @jac_impl_gen K O true noskip fixed_D08b.     (* the code selected by the switch *)
+Definition jac_impl_D08b_open {K} (O : ops K) := @jac_impl_gen K O true noskip false. (* J0 printed without the past table *)
+Definition jac_impl_preD08 {K} (O : ops K) := @jac_impl_gen K O false noskip true.    (* the code before fix D08 (column) *)
+Definition jac_impl_preD51 {K} (O : ops K) := @jac_impl_gen K O true unresolved true. (* the code before fix D51 (absv) *)
+
+(* ---- the parameter Jacobian of the auto-07p export (_compute_symbolic_jacobian / _emit_auto_jacobian_block):
+   dfdu[(i_row, j_col)] = diff(f_i, y_j), dfdp[(i_row, name)] = diff(f_i, p_name) when not 0, for the parameters in the order of
+   the argument list; the Fortran block writes dfdu(i+1, j+1) and dfdp(i+1, slot(name)).  Only models without delays.
+   The columns of `dfdp_mat` are the parameters in argument order; which PAR slot a column lands in is C18's slot function. *)
+Definition dfdp_mat {K} (O : ops K) (params : list nat) (s : sys K) : list (list (expr K)) :=
+  matr O (length (fexprs s)) (length params) (j0_entries O noskip params (fexprs s)).
+Definition dfdu_mat {K} (O : ops K) (s : sys K) : list (list (expr K)) :=
+  matr O (length (fexprs s)) (length (states s)) (j0_entries O noskip (states s) (fexprs s)).
+Definition spec_rect {K} (O : ops K) (s : sys K) (r : atom -> K) (cols : list nat) : list (list K) :=
+  map (fun i => map (fun j => nth i (partials O s r (AV (nth j cols 0))) (o0 O)) (seq 0 (length cols))) (seq 0 (length (rhs s))).
 
 (* the whole specification as one value *)
 Definition jac_spec {K} (O : ops K) (s : sys K) (r : atom -> K) : result (list (list K)) :=
@@ -344,15 +362,25 @@ Definition Qc_abs (v : Qc) : Qc := if Qle_bool 0%Q (this v) then v else (- v)%Qc
    function and Jacobian function alike) by the polynomial stand-ins below, so that what is compared exactly is the structure
    the code emits (which rule is applied to which call, chain rule, placement); that the rules are the derivatives of the
    real functions is JacobianReal.v (fn_derive, D_correct).  The stand-ins of sin/tanh are odd and the one of cos is even (sympy rewrites
-   sin(-u) -> -sin(u), cos(-u) -> cos(u) when it builds the expression); exp is not used in that stream (sympy merges
-   exp(u)*exp(v) into exp(u+v), which no polynomial satisfies). *)
+   sin(-u) -> -sin(u), cos(-u) -> cos(u) when it builds the expression); exp has the stand-in 2^v on integral arguments (Qc_exp2). *)
+(* stand-in of exp: 2^v for integral v (exact in float64 and in Qc, and a homomorphism like exp: sympy merges exp(u)*exp(v) into
+   exp(u+v) and exp(u)^2 into exp(2u)); the generator only produces integral arguments (4 * a variable that is a multiple of 1/4) *)
+Definition Qc_exp2 (v : Qc) : Qc :=
+  match Qden (this v) with
+  | xH => match Qnum (this v) with
+          | Z0 => 1%Qc
+          | Zpos p => Qcpower (mkq 2 1) (Pos.to_nat p)
+          | Zneg p => (/ Qcpower (mkq 2 1) (Pos.to_nat p))%Qc
+          end
+  | _ => 0%Qc
+  end.
 Definition Qc_fn (f : fn) (v : Qc) : Qc :=
   match f with
   | FId => v
   | FAbs => Qc_abs v
   | FSign => Qc_sign v
   | FSig => (v * v * mkq 1 4 + mkq 1 4)%Qc
-  | FExp => (v * v * mkq 1 2 + v + 1)%Qc
+  | FExp => Qc_exp2 v
   | FSin => (v * mkq 1 2)%Qc
   | FCos => (1 - v * v * mkq 1 2)%Qc
   | FTanh => (v * mkq 1 4)%Qc
